@@ -243,6 +243,20 @@ impl Prop for C11 {
                     timeout: Duration::from_secs(1200),
                     what: "for every program: every subexpression wrapped in 1..3 redundant pairs, and every pair of subexpressions wrapped once".into(),
                 },
+                Stage {
+                    name: "dual-role-whitespace".into(),
+                    len: 1,
+                    chunk: 1,
+                    timeout: Duration::from_secs(600),
+                    what: "fresh process with `%` also postfix, `*` also prefix, `!` and `++` also infix: the whitespace variants of every tree of <= 2 nodes over those operators".into(),
+                },
+                Stage {
+                    name: "dual-role-parens".into(),
+                    len: 1,
+                    chunk: 1,
+                    timeout: Duration::from_secs(600),
+                    what: "the same table: redundant parentheses around every subexpression of those trees".into(),
+                },
             ],
             rule: "stage 'deep': k postfix statements followed by an operand wrapped in m redundant pairs, and runs of 300 whitespace characters, for k, m in {0,1,8,31,32,33,64,100} (capacity effects; engine against engine). programs = the shared tree set (<= 3 operator nodes over every node kind; string literals containing spaces, parentheses and a double quote), restricted to those the engine parses to the generator's tree; \
                    oracle = AST equality with the parse of the original text; non-trivial = >= 1 operator node, distinct = distinct program (each is re-laid-out in all the ways counted under evaluations)"
@@ -263,8 +277,49 @@ impl Prop for C11 {
             }
             return;
         }
-        let stage = if stage == 2 { 1 } else { stage };
-        let progs = programs(tier);
+        let dual = stage >= 3;
+        let stage = if stage == 2 || stage == 4 { 1 } else if stage == 3 { 0 } else { stage };
+        let (ops, progs, a, b) = if dual {
+            // operators that exist in two positions under one symbol (registered here: fresh process)
+            use crate::gen::{relabel, trees_by_size, Kind};
+            let ops = super::c02::install_dual_role();
+            let kinds = vec![
+                Kind::Infix("%".into()), Kind::Postfix("%".into()), Kind::Infix("*".into()), Kind::Prefix("*".into()),
+                Kind::Infix("!".into()), Kind::Prefix("!".into()), Kind::Infix("++".into()), Kind::Postfix("++".into()), Kind::Infix("+".into()), Kind::Call(1),
+            ];
+            let rot = crate::gen::leaf_rotation();
+            let mut v = Vec::new();
+            for sz in trees_by_size(&kinds, 2).iter().skip(1) {
+                for t in sz {
+                    // not defined by any property: an operator that is both postfix and infix, directly
+                    // after an operand that already carries a postfix operator (`1 % ++ b`) — the
+                    // engine takes one postfix operator per operand, so there a pair of parentheses
+                    // decides between "second postfix" and "infix"
+                    let ambiguous = |t: &Ast| -> bool {
+                        fn go(t: &Ast) -> bool {
+                            match t {
+                                Ast::Binary(op, l, r) => ((op == "%" || op == "++") && matches!(**l, Ast::Postfix(..))) || go(l) || go(r),
+                                Ast::Unary(_, x) | Ast::Postfix(x, _) => go(x),
+                                Ast::Func(_, v) => v.iter().any(go),
+                                _ => false,
+                            }
+                        }
+                        go(t)
+                    };
+                    if ambiguous(t) {
+                        continue;
+                    }
+                    for off in [0usize, 1, 7] {
+                        let mut n = off;
+                        v.push(relabel(t, &mut n, &rot));
+                    }
+                }
+            }
+            let n = v.len() as u64;
+            (ops, v, 0, n)
+        } else {
+            (ops, programs(tier), a, b)
+        };
         let wss = ws_strings(tier);
         for i in a..b {
             out.at(i);
@@ -388,7 +443,10 @@ impl Prop for C11 {
             }
         }
     }
-    fn case_text(&self, tier: Tier, _stage: usize, i: u64) -> String {
+    fn case_text(&self, tier: Tier, stage: usize, i: u64) -> String {
+        if stage >= 3 {
+            return "dual-role operator table".to_string();
+        }
         let ops = OpSet::builtin();
         show(&parse::print(&programs(tier)[i as usize], &ops, Parens::Minimal))
     }
